@@ -113,12 +113,12 @@ CHECKS = {
         cat="exploration", technique="generic object-graph digest at pickling vs after restore inside the real run path + offline accounting over user-boundary event logs of kill/resume histories",
         text="24 (thorough 300) seeded histories: a run with a checkpoint schedule (every 1/7/50 iterations, every 0.2 s, on training with an iteration or time interval short enough for it to write) is killed by os._exit at the K-th "
              "likelihood point, resumed in a fresh process, killed again (1-3, thorough 1-5 kills), then completed; every checkpoint's full state digest (~300 fields) is "
-             "compared after restore with a reviewed allow-list; evaluation counts and timings are checked cumulatively against the call log (restored = checkpointed; never more accounted in a segment than its wall-clock time; the finishing segment within 0.8-1.02 of the wall time of its sampling loop without checkpoint writes); every fourth history checkpoints through a user checkpoint_callback and resumes through resume_data; custom resume_file names and an INS time schedule; C01/C03/C05 monitors stay armed.",
+             "compared after restore with a reviewed allow-list; evaluation counts and timings are checked cumulatively against the call log (restored = checkpointed; never more accounted in a segment than its wall-clock time; the finishing segment within 0.8-1.02 of the wall time of its sampling loop without checkpoint writes); every fourth history checkpoints through a user checkpoint_callback and resumes through resume_data; custom resume_file names, an INS time schedule and runs with nessai's default plotting on; C01/C03/C05 monitors stay armed.",
         note="flow weights are outside the property's list and only reloaded; fields allowed to differ are listed with reasons in vlib/digest.py and counted in the evidence",
         ref="DESIGN.md §3 C12"),
     "C13": dict(
         cat="fault_enumeration", technique="schedule enumeration: the real signal handler invoked from a trace hook before each source line of the sampling loop, fresh resume under conservation/count monitors; real signals to child processes",
-        text="~230 (thorough: every line x 4 phases, ~2300) delivered injections over 18 standard-sampler and 14 INS functions (the initial live-point draw included): FlowSampler.safe_exit(signum, frame) is called "
+        text="~230 (thorough: every line x 4 phases, ~2300) delivered injections over 20 standard-sampler and 15 INS functions (the initial live-point draw and the periodic state / trace plots included); a handler that ran while the run or the process carried on is a violation: FlowSampler.safe_exit(signum, frame) is called "
              "before the chosen line at phases covering the first iteration, uninformed sampling, the switch/first training and late flow sampling; the SystemExit code, "
              "conservation of every live/discarded point at resume, count identities (samples / integral state / insertion indices), and the completed run under the "
              "C01/C03/C05 monitors are checked; for INS the iteration-boundary checkpoint's hash must be unchanged by the handler. Every one of SIGTERM/SIGINT/SIGALRM is raised for real, for each sampler, in child processes that keep nessai's own registered handlers (observer wrapped around signal.getsignal): at function heads, at the n-th entry of any nessai function (deterministic) and after a wall-clock delay (setitimer / timer thread) - 25 (thorough 264) deliveries; the process exit status must be the configured code and the checkpoint left is resumed under the same oracles. 15 (100) histories with 2-4 interruptions and resumes in a "
@@ -127,18 +127,18 @@ CHECKS = {
              "the three interruption states of the non-restartable replace step are listed known findings decided by state predicates", ref="DESIGN.md §3 C13"),
     "C20": dict(
         cat="exploration", technique="bounded-progress monitor: per-option real runs with logical step budgets (counters on population batches, INS draw batches, iterations, likelihood points) + C05 oracle on clean finishes",
-        text="Each of 143 standard and 71 importance-sampler option values (proposal classes, latent priors, radius options, reparameterisations, flow and training options, "
+        text="Each of 144 standard and 71 importance-sampler option values (proposal classes, latent priors, radius options, reparameterisations, flow and training options, "
              "reset/retrain policies, uninformed limits, draw/pool sizes down to one on an edge-peaked model, INS thresholds/criteria/redraw/bootstrap/final-flow, posterior sampling methods, plot switches, parallelisation) runs "
-             "FlowSampler(...).run(save=True) under step budgets ~15-100x nominal; the outcome must be a configuration error before the first sampler likelihood call or a clean "
+             "FlowSampler(...).run(save=True) under step budgets ~15-100x nominal (30 INS iterations for runs without a cap); every run of the two configuration matrices of the run-level checks must complete as well; the outcome must be a configuration error before the first sampler likelihood call or a clean "
              "finish with finite results that satisfy the C05 oracle. Thorough adds 2 seeds and ~600 random compatible pair/triple rows on 2- and 3-parameter models.",
         note="liveness is restated as bounded progress; a wall-clock watchdog without budget overrun is inconclusive; astropy/lal-dependent options are not reachable", ref="DESIGN.md §3 C20"),
     "C06": dict(
         cat="exploration", technique="statistical monitor over many seeded real runs per configuration cell against closed-form evidences and posterior moments, fixed thresholds at total false-alarm 1e-9",
-        text="15 cells x 24 seeds (thorough 28 cells x 200 seeds) of both samplers on Gaussian-likelihood models with uniform and truncated-normal priors: finite evidence and "
+        text="16 cells x 24 seeds (thorough 32 cells x 200 seeds) of both samplers on Gaussian-likelihood models with uniform and truncated-normal priors: finite evidence and "
              "positive error, mean error within a Student-t bound plus the stated Jensen/discretisation allowance, variance ratio of errors to reported uncertainties within "
              "chi-square bounds (kappa 2), pooled posterior means and variances against the truncated-Gaussian closed form, insertion-index p-values; a failing cell is re-run "
              "with fresh seeds and reported only if it fails again. Cells include uninformed sampling disabled, analytic non-uniform priors, augmented proposal, MAF + logit + "
-             "shrinkage 't', accumulate-weights, INS default and strict/non-uniform, and a likelihood that is exactly zero on 82 % of the prior for both samplers (the standard sampler's bias there is a listed known finding).",
+             "shrinkage 't', accumulate-weights (4-d), likelihood offsets of -2000 / +900 in log L, INS default and strict/non-uniform, and a likelihood that is exactly zero on 82 % of the prior for both samplers (the standard sampler's bias there is a listed known finding).",
         note="cannot see a bias below ~q sd/sqrt(S) (reported per cell as 'resolution': ~0.27 in log Z at 24 seeds, ~0.07 at 200 seeds for the standard sampler; ~0.03 / 0.01 for INS)",
         ref="DESIGN.md §3 C06"),
     "C19": dict(
